@@ -352,15 +352,23 @@ def _run(cmd, cwd, timeout, mem_gb=8):
     t0 = time.time()
     pre = "ulimit -v %d; exec " % (mem_gb * 1024 * 1024)
     shell_cmd = pre + " ".join(shquote(c) for c in cmd)
+    # own process group: a timeout must also kill the solver cbmc spawned (z3 would otherwise run on as an orphan)
+    import signal
+    proc = subprocess.Popen(["bash", "-c", shell_cmd], cwd=cwd, env=tool_env(), stdout=subprocess.PIPE, stderr=subprocess.PIPE,
+                            text=True, start_new_session=True)
     try:
-        p = subprocess.run(["bash", "-c", shell_cmd], cwd=cwd, env=tool_env(), capture_output=True,
-                           text=True, timeout=timeout)
-        return p.returncode, p.stdout, p.stderr, time.time() - t0
-    except subprocess.TimeoutExpired as e:
-        subprocess.run(["pkill", "-9", "-f", cwd], capture_output=True)
-        so = e.stdout.decode() if isinstance(e.stdout, bytes) else (e.stdout or "")
-        se = e.stderr.decode() if isinstance(e.stderr, bytes) else (e.stderr or "")
-        return -9, so, se, time.time() - t0
+        so, se = proc.communicate(timeout=timeout)
+        return proc.returncode, so, se, time.time() - t0
+    except subprocess.TimeoutExpired:
+        try:
+            os.killpg(proc.pid, signal.SIGKILL)
+        except ProcessLookupError:
+            pass
+        try:
+            so, se = proc.communicate(timeout=10)
+        except Exception:
+            so, se = "", ""
+        return -9, so or "", se or "", time.time() - t0
 
 
 def shquote(s):
@@ -537,12 +545,23 @@ def exec_split(job, base, d, t0, log, fail):
         props = [p for item in json.loads(so) if "properties" in item for p in item["properties"]]
     except Exception:
         return fail("error", "cannot list properties: " + so[-500:] + se[-500:])
+    if not props:
+        return fail("error", "no properties listed (compile error?): " + so[-1500:] + se[-500:])
     hard = [p for p in props if re.search(job.split, p.get("description", ""))]
     rest = [p for p in props if not re.search(job.split, p.get("description", ""))]
     results, traces = {}, {}
     runs = []
-    if rest:
+    if rest and len(rest) <= 400:
         runs.append((None, base + ["--trace"] + sum((["--property", p["name"]] for p in rest), []), job.timeout))
+    elif rest:
+        # too many properties for an argument list: the batch runs on a copy of the unit from which the split obligations
+        # (one __CPROVER_assert per line) are removed; its results are keyed separately
+        src_b = os.path.join(d, "unit_batch.c")
+        pat = re.compile(job.split.replace("^", ""))
+        keep = [l for l in open(os.path.join(d, "unit.c")).read().split("\n")
+                if not ("__CPROVER_assert(" in l and re.search(r'"(%s)' % job.split.replace("^", ""), l))]
+        open(src_b, "w").write("\n".join(keep))
+        runs.append((None, [src_b if a.endswith("unit.c") else a for a in base] + ["--trace"], job.timeout))
     for k in range(0, len(hard), job.split_chunk):
         chunk = hard[k:k + job.split_chunk]
         runs.append((chunk, base + ["--trace", "--slice-formula"] + sum((["--property", p["name"]] for p in chunk), []),
@@ -575,8 +594,9 @@ def exec_split(job, base, d, t0, log, fail):
             flat.append(o)
     for (p, st, parsed) in flat:
         if st == "ok":
-            results.update(parsed[0])
-            traces.update(parsed[1])
+            pref = "batch:" if p is None else ""
+            results.update({pref + k: v for k, v in parsed[0].items()})
+            traces.update({pref + k: v for k, v in parsed[1].items()})
             if p is None:
                 log.append(parsed[2][-3000:])
                 if "SMT2" not in parsed[2]:
